@@ -642,6 +642,8 @@ def plan(tier):
     shards.append({'fam': 'casepair', 'route': 'formula', 'lo': 0, 'hi': 0})
     shards.append({'fam': 'named-book', 'route': 'formula', 'lo': 0,
                    'hi': 0})
+    shards.append({'fam': 'long-chain', 'route': 'formula', 'lo': 0,
+                   'hi': 0})
     nconv = len(conv_exprs())
     for route in ('call', 'formula', 'cell'):
         for lo in range(0, nconv, 150):
@@ -740,7 +742,31 @@ def run_named_book(ctx):
     lib.clear_caches()
 
 
+# -- long chains of & -----------------------------------------------------------------
+def run_long_chains(ctx):
+    """a&b&c&... has no limit on the number of operands (CONCAT, the function,
+    has Excel's limit of arguments; the operator is not that function)."""
+    pieces = ['a', 'b', '"', 'é', ' ']
+    for n in (2, 30, 254, 255, 256, 300):
+        parts = [pieces[k % len(pieces)] for k in range(n)]
+        text = '&'.join('"%s"' % p.replace('"', '""') for p in parts)
+        want = ''.join(parts)
+        tags = ['family:long-concat-chain', 'operands:%d' % n]
+        ctx.check('C17/chain/%d/value' % n, lib.eval_formula('=' + text),
+                  'text:' + want, tags, {'fam': 'long-chain'}, True)
+        ctx.check('C17/chain/%d/len' % n,
+                  lib.eval_formula('=LEN(%s&"xyz")' % text),
+                  lib.norm(len(want) + 3), tags, {'fam': 'long-chain'}, True)
+        ctx.check('C17/chain/%d/cells' % n, lib.eval_formula(
+            '=' + '&'.join(['A1', 'B1'] * (n // 2)),
+            {'Sheet1!A1': 'x', 'Sheet1!B1': 5}),
+            'text:' + 'x5' * (n // 2), tags, {'fam': 'long-chain'}, True)
+
+
 def run_shard(shard, ctx):
+    if shard['fam'] == 'long-chain':
+        run_long_chains(ctx)
+        return
     if shard['fam'] == 'named-book':
         run_named_book(ctx)
         return
@@ -767,6 +793,9 @@ def run_shard(shard, ctx):
 
 
 def replay(inputs, ctx):
+    if inputs.get('fam') == 'long-chain':
+        run_long_chains(ctx)
+        return
     if inputs.get('fam') == 'named-book':
         run_named_book(ctx)
         return
